@@ -31,6 +31,7 @@ EXPLANATION = ("a: outer loop = Iterator::next on Range{_, config.max_cycles} bu
                "typed-core evaluator.")
 FLOORS = {"forward_loops": 2, "reachable_fns": 40}
 EXPLANATION += ' d (added): the activation-group marks are cleared before the rule loop of every pass (an Err return leaves a pass in the middle, so clearing at the end is not enough), and each pass walks the full get_rules_by_salience() - the list is not narrowed (retain / filter / &mut) before the walk.'
+EXPLANATION += ' d (added): every write to fired_rules_global inside the cycle loop lies behind the true edge of the condition evaluation (a name entered when a rule is merely looked at makes the no-loop gate skip a rule that never fired: a pass that fires nothing is then not a fixpoint). Recursion (b) is decided per cycle: calls that pass a strict part are progress edges, the remaining call graph of the cycle must be acyclic. Counters (c) may be locals or fields of a private totals struct; the early break may be the fired flag, a bool returned by an inlined per-pass helper, or a snapshot comparison of rules_fired.'
 
 RESULT = "GruleExecutionResult"
 FACTS = "engine::facts::Facts"
